@@ -1047,7 +1047,37 @@ def surf_far(tag_a, da, tag_b, db, rel, abs_=None, slack=4.0, written=False):
         r = abs_ if (written and len(a) > 1) else rel
         if not diff <= slack * max(abs_, r * max(na, nb)):
             return name
+    if tag_a in ("sq", "gq"):
+        # geometric reading: the same comparison on the quadrics normalised to unit largest
+        # second-order (else first-order) coefficient — a quadric is defined up to a factor
+        def norm_q(d):
+            k = 6 if tag_a == "gq" else 3
+            sc = max(abs(v) for v in d[:k]) or max(abs(v) for v in d[k:k + 3]) or 1.0
+            return [v / sc for v in d]
+        ga, gb = groups_of(tag_a, norm_q(da)), groups_of(tag_b, norm_q(db))
+        for name in ga:
+            a, b = ga[name], gb[name]
+            na = math.sqrt(sum(v * v for v in a))
+            nb = math.sqrt(sum(v * v for v in b))
+            diff = math.sqrt(sum((a[i] - b[i]) ** 2 for i in range(len(a))))
+            if not diff <= 4 * slack * max(abs_, rel * max(na, nb), rel * max(1.0, max(abs(v) for v in a + b))):
+                return "normalised:" + name
     return None
+
+
+def quadrics_merge(surfs, tol):
+    """two distinct sq / gq surfaces of an object that SoftSurfaceEqual's raw per-group comparison
+    accepts although the normalised quadrics differ (small, un-normalised coefficients)"""
+    qs = [(tag, d) for tag, d in surfs if tag in ("sq", "gq")]
+    for i in range(len(qs)):
+        for j in range(i + 1, len(qs)):
+            (ta, da), (tb, db) = qs[i], qs[j]
+            if ta != tb or da == db:
+                continue
+            far = surf_far(ta, da, tb, db, tol)
+            if far is not None and far.startswith("normalised"):
+                return True
+    return False
 
 
 def run_pairs(ctx, exe, model, sc, n, findings, stats):
@@ -1115,6 +1145,13 @@ def gen_softeq_pair(rng):
     if tag == "p":
         n = math.sqrt(sum(v * v for v in d[:3])) or 1.0
         d = [v / n for v in d[:3]] + [d[3]]
+    if tag in ("sq", "gq") and rng.chance(1, 3):
+        # small un-normalised coefficients (e.g. ellipsoids with radii << 1) and a relative change
+        f = 10.0 ** (-2 - 3 * rng.unit())
+        d = [v * f for v in d]
+        e = rng.choice([1e-2, 1e-3, 1e-1])
+        d2 = [v * (1 + e * (rng.unit() * 2 - 1)) for v in d]
+        return rel, abs_, (tag, d), (tag, d2), "scaled"
     k = rng.below(10)
     if k == 0:
         return rel, abs_, (tag, d), (tag, list(d)), "same"
@@ -1603,6 +1640,8 @@ def run_e2e(ctx, exe, sc, n, npts, findings, stats):
                     kind = "e2e/genprism-planar"
                 if kind == "e2e" and i in ell_lower:
                     kind = "e2e/ellipsoid-cyl"
+                if kind == "e2e" and quadrics_merge(surfs[i], tol):
+                    kind = "e2e/quadric-merge"
                 findings.append((kind, o, tol, None, l, {"point": p, "expected": exp, "located": chars[j],
                                                          "object": object_words_readable(o)}))
     return len(lines), n_eval
@@ -1663,6 +1702,12 @@ def classify(kind, reg, info):
         return "emission-wrong:" + t
     if kind == "spec-vs-python":
         return "oracle-disagrees-with-lean-spec:" + t
+    if kind == "dedup" and str(info.get("group")).startswith("normalised"):
+        return "softeq-unnormalised-quadric-merge"
+    if kind == "softeq-far" and str(info.get("group")).startswith("normalised"):
+        return "softeq-unnormalised-quadric-merge"
+    if kind == "e2e/quadric-merge":
+        return "softeq-unnormalised-quadric-merge"
     if kind == "dedup":
         return "dedup-merged-distant-surfaces:" + str(info.get("group"))
     if kind == "softeq-asym":
